@@ -274,6 +274,72 @@ def accepted : List RawOp → List Op
     | .ok op => op :: accepted rs
     | .error _ => accepted rs
 
+/-! ### the caller's argument buffers (robustness class R16)
+
+A caller may keep ONE preallocated 0-d integer array for request sizes and ONE
+list / integer array for shapes, refill them in place (`buf[...] = n`,
+`lst[:] = dims`) and pass the SAME object to every call — to
+`generate_more_samples` and to `skip_samples_for_next_generation` alike (one
+object in two roles) — and may overwrite the buffer right after a call.  The
+code reads an argument with `operator.index` during the call and keeps no
+reference to it, so the generator's `State` has no field a buffer could be
+remembered in: a call sees the CONTENT of the buffer at call time. -/
+
+/-- what the caller holds between calls: the content of its size buffer and of
+    its shape buffer -/
+structure Caller where
+  size : SizeArg
+  shape : RawShape
+  deriving DecidableEq, Repr, Inhabited
+
+/-- one statement of the caller's program -/
+inductive CallerOp
+  /-- `nbuf[...] = a` — refills the size buffer; not a call on the generator -/
+  | fillSize (a : SizeArg)
+  /-- `sbuf[:] = a` — refills the shape buffer; not a call on the generator -/
+  | fillShape (a : RawShape)
+  /-- `g.generate_more_samples(nbuf)` -/
+  | genBuf
+  /-- `g.skip_samples_for_next_generation(nbuf)` (the same object as for `genBuf`) -/
+  | skipBuf
+  /-- `g.shape = sbuf` -/
+  | setShapeBuf
+  /-- a call whose argument is a fresh object -/
+  | call (r : RawOp)
+  deriving DecidableEq, Repr, Inhabited
+
+/-- the call (if any) a statement issues, given what the buffers hold now -/
+def CallerOp.issued (c : Caller) : CallerOp → Option RawOp
+  | .fillSize _ => Option.none
+  | .fillShape _ => Option.none
+  | .genBuf => some (.gen c.size)
+  | .skipBuf => some (.skip c.size)
+  | .setShapeBuf => some (.setShape c.shape)
+  | .call r => some r
+
+/-- the buffers after a statement -/
+def CallerOp.refill (c : Caller) : CallerOp → Caller
+  | .fillSize a => { c with size := a }
+  | .fillShape a => { c with shape := a }
+  | _ => c
+
+/-- one statement: the buffers are refilled or the call is made on the object -/
+def stepC (c : Caller) (s : State) (op : CallerOp) : Caller × State :=
+  match op.issued c with
+  | some r => (op.refill c, (stepR s r).1)
+  | Option.none => (op.refill c, s)
+
+def runC (c : Caller) (s : State) : List CallerOp → Caller × State
+  | [] => (c, s)
+  | op :: ops => runC (stepC c s op).1 (stepC c s op).2 ops
+
+/-- the calls the generator receives: buffer contents AT CALL TIME -/
+def callsSeen (c : Caller) : List CallerOp → List RawOp
+  | [] => []
+  | op :: ops => match op.issued c with
+    | some r => r :: callsSeen (op.refill c) ops
+    | Option.none => callsSeen (op.refill c) ops
+
 /-! ### model of the stepping used before the repair (finding `C14:float-stepped-arange`) -/
 
 section oldStepping
